@@ -248,6 +248,22 @@ func classifyRet0(r *Run, cf *CoreFlow, v ssa.Value, s CS) string {
 				}
 				return "other:cell with several stores"
 			}
+			// the value behind a pointer read from a bucket slot (typed-atomic slots: *b.values[i].Load(); or a plain read
+			// of the slot under the lock): the old value
+			if src := core.StripConv(x.X); src != nil {
+				if c, isCall := src.(*ssa.Call); isCall {
+					if op, addr, isAt := core.AtomicOp(c); isAt && op == "Load" {
+						if k, _ := slotKind(r, addr); k == "slot" {
+							return "old"
+						}
+					}
+				}
+				if ld, isLd := src.(*ssa.UnOp); isLd && ld.Op == token.MUL {
+					if k, _ := slotKind(r, ld.X); k == "slot" {
+						return "old"
+					}
+				}
+			}
 			// load of a slot value / entry field: an old value (hit under lock, no call)
 			a := core.Addr(x.X)
 			if a.Owner == cf.MM.EntryT && cf.MM.EntryT != "" {
